@@ -1,6 +1,9 @@
 import Continuum.Wire
 import Continuum.Temporal
 import Continuum.Spec.Tables
+import Continuum.Uow
+import Continuum.Spec.Uow
+import Continuum.Schema
 
 /-!
 # Line-protocol driver
@@ -24,6 +27,18 @@ structure DState where
   t : VTable Key := []
   t2 : VTable Key := []
   del : List (VRow Key) := []
+  -- trace level
+  cfg : Cfg := {}
+  st : St := {}
+  segBefore : Obs := {}
+  segEvs : List Ev := []
+  pend : Obs := {}            -- the implementation's observation being received
+  mBefore : Obs := {}         -- the model's observation at the last transaction boundary
+  wf : Bool := true           -- every event so far satisfied the contract EvOK
+  schIn : Option Schema.TblIn := none
+  schOut : Option Schema.TblOut := none
+  wfFirst : String := "-"     -- the first event that did not
+  nev : Nat := 0
 
 def parseCs (s : String) : Option (List (Nat × Val × Val)) :=
   parseList (fun item => match item.splitOn ":" with
@@ -39,6 +54,103 @@ def showCs (cs : List (Nat × Val × Val)) : String :=
 
 def showAnswers (a : Answers) : String :=
   s!"{showNats a.vs} {showNats a.idx} {showONats a.nxt} {showONats a.prv}"
+
+
+/-! ## trace level: configuration and events -/
+
+def parseONatList (s : String) : Option (List (Option Nat)) := parseList parseONat s
+
+def parseRel (s : String) : Option RelCfg :=
+  match s.splitOn ":" with
+  | [d, loc, ex] => do
+    let dir ← (if d == "o2m" then some RelDir.oneToMany else if d == "m2o" then some RelDir.manyToOne
+               else if d == "m2m" then some RelDir.manyToMany else none)
+    let loc ← parseNats loc
+    let ex ← parseBool ex
+    pure { dir := dir, localCols := loc, excluded := ex }
+  | _ => none
+
+def parseSemi {α : Type} (f : String → Option α) (s : String) : Option (List α) :=
+  if s == "-" then some [] else (s.splitOn ";").mapM f
+
+def parseTab (s : String) : Option (Nat × List (Option Nat)) :=
+  match s.splitOn ":" with
+  | [tid, cols] => do
+    let tid ← parseNat tid
+    let cols ← parseONatList cols
+    pure (tid, cols)
+  | _ => none
+
+def parseView (s : String) : Option ObjView :=
+  match s.splitOn ":" with
+  | [c, n, d, cc, rc] => do
+    let c ← parseNat c
+    let n ← parseBool n
+    let d ← parseBool d
+    let cc ← parseBools cc
+    let rc ← parseBools rc
+    pure { cls := c, isNew := n, isDeleted := d, colChanged := cc, relChanged := rc }
+  | _ => none
+
+def parseEv : List String → Option Ev
+  | ["bf", newId, pm, views] => do
+    let newId ← parseNat newId
+    let pm ← parseBool pm
+    let views ← parseSemi parseView views
+    pure (.beforeFlush views newId pm)
+  | ["af"] => some .afterFlush
+  | ["commit"] => some .commit
+  | ["rollback"] => some .rollback
+  | ["manualtx", n] => (parseNat n).map .manualTx
+  | ["spbegin"] => some .spBegin
+  | ["spcommit"] => some .spCommit
+  | ["sprollback"] => some .spRollback
+  | ["ins", c, pk, vals, ch] => do
+    pure (.ins (← parseNat c) (← parseKey pk) (← parseVals vals) (← parseBools ch))
+  | ["upd", c, pk, vals, cc, rc, kc, kr] => do
+    pure (.upd (← parseNat c) (← parseKey pk) (← parseVals vals) (← parseBools cc) (← parseBools rc)
+               (← parseBools kc) (← parseBools kr))
+  | ["del", c, pk, vals] => do
+    pure (.del (← parseNat c) (← parseKey pk) (← parseVals vals))
+  | ["assoc", t, op, links] => do
+    pure (.assoc (← parseNat t) (← parseOp op) (← parseSemi parseKey links))
+  | _ => none
+
+def showTRow (r : VRow TKey) : String :=
+  s!"{r.key.1} {showKey r.key.2} {r.tx} {showONat r.endTx} {r.op.code} {showVals r.vals} {showBools r.mods}"
+
+def semi (l : List String) : String := if l.isEmpty then "-" else ";".intercalate l
+
+def showModelDump (s : St) : String :=
+  let u := s.uow
+  let mgr := match u with
+    | none => "nouow"
+    | some u =>
+      let ops := semi (u.ops.map (fun (e : OpEntry) => s!"{e.cls}:{showKey e.pk}:{e.op.code}:{showBool e.processed}"))
+      let vobjs := semi (u.vobjs.map (fun (x : Nat × List Int × Nat) => s!"{x.1}:{showKey x.2.1}:{x.2.2}"))
+      s!"uow {showONat u.cur} {ops} {vobjs} {u.pending.length}"
+  let versions := semi (s.db.versions.map showTRow)
+  let txs := showNats s.db.txs
+  let assoc := semi (s.db.assoc.map (fun (a : ARow) => s!"{a.tbl} {showKey a.link} {a.tx} {a.op.code}"))
+  let changes := semi (s.db.changes.map (fun (x : Nat × Nat) => s!"{x.1} {x.2}"))
+  s!"{versions} | {txs} | {assoc} | {changes} | {mgr} | {showBool s.err}"
+
+
+/-! ## schema level (C12) -/
+
+def parseName (s : String) : Option Schema.Name :=
+  if s == "-" then some [] else (s.splitOn ".").mapM parseNat
+
+def parseOName (s : String) : Option (Option Schema.Name) :=
+  if s == "N" then some none else (parseName s).map some
+
+def parseNames (s : String) : Option (List Schema.Name) :=
+  if s == "-" then some [] else (s.splitOn ",").mapM parseName
+
+def showName (n : Schema.Name) : String := if n.isEmpty then "-" else ".".intercalate (n.map toString)
+
+def showVCol (c : Schema.VCol) : String :=
+  s!"{showName c.name} {c.typ} {showBool c.pk} {showBool c.nullable} {showBool c.unique} {showBool c.autoinc} {showBool c.onupdate} {showBool c.fk}"
 
 def bad : Option String := some "bad-op"
 
@@ -62,6 +174,108 @@ def handle (st : DState) (toks : List String) : DState × Option String :=
       match rowAt st.t k tx with
       | some r => ({ st with del := st.del ++ [r] }, none)
       | none => (st, bad)
+    | _, _ => (st, bad)
+  | ["cfg", strat, nd, mt, tc] =>
+    match parseBool nd, parseBool mt, parseBool tc with
+    | some nd, some mt, some tc =>
+      let strat := if strat == "subquery" then Strategy.subquery else Strategy.validity
+      ({ st with cfg := { strategy := strat, nullDelete := nd, modTracker := mt, txChanges := tc } }, none)
+    | _, _, _ => (st, bad)
+  | ["cls", v, n, excl, incl, rels, tabs] =>
+    match parseBool v, parseNat n, parseBools excl, parseBools incl, parseSemi parseRel rels, parseSemi parseTab tabs with
+    | some v, some n, some excl, some incl, some rels, some tabs =>
+      let c : ClassCfg := { versioned := v, ncols := n, excl := excl, incl := incl, rels := rels, tables := tabs }
+      ({ st with cfg := { st.cfg with classes := st.cfg.classes ++ [c] } }, none)
+    | _, _, _, _, _, _ => (st, bad)
+  | ["assoctbl", t] =>
+    match parseNat t with
+    | some t => ({ st with cfg := { st.cfg with assocTables := st.cfg.assocTables ++ [t] } }, none)
+    | none => (st, bad)
+  | "ev" :: rest =>
+    match parseEv rest with
+    | some e =>
+      let isEnd := match e with
+        | .commit => true
+        | .rollback => true
+        | _ => false
+      let ok : Bool := decide (EvOK st.cfg st.st e)
+      let first := if st.wf && !ok then s!"{st.nev}:{rest.headD "?"}" else st.wfFirst
+      ({ st with st := step st.cfg st.st e, segEvs := if isEnd then st.segEvs else st.segEvs ++ [e],
+                 wf := st.wf && ok, wfFirst := first, nev := st.nev + 1 }, none)
+    | none => (st, bad)
+  | ["iv", tid, pk, tx, e, op, vals, mods] =>
+    match parseNat tid, parseRow [pk, tx, e, op, vals, mods] with
+    | some tid, some r =>
+      let r' : VRow TKey := { key := (tid, r.key), tx := r.tx, endTx := r.endTx, op := r.op, vals := r.vals, mods := r.mods }
+      ({ st with pend := { st.pend with db := { st.pend.db with versions := st.pend.db.versions ++ [r'] } } }, none)
+    | _, _ => (st, bad)
+  | ["itx", ids] =>
+    match parseNats ids with
+    | some ids => ({ st with pend := { st.pend with db := { st.pend.db with txs := ids } } }, none)
+    | none => (st, bad)
+  | ["ia", tid, link, tx, op] =>
+    match parseNat tid, parseKey link, parseNat tx, parseOp op with
+    | some tid, some link, some tx, some op =>
+      ({ st with pend := { st.pend with db := { st.pend.db with assoc := st.pend.db.assoc ++ [{ tbl := tid, link := link, tx := tx, op := op }] } } }, none)
+    | _, _, _, _ => (st, bad)
+  | ["ic", tx, c] =>
+    match parseNat tx, parseNat c with
+    | some tx, some c => ({ st with pend := { st.pend with db := { st.pend.db with changes := st.pend.db.changes ++ [(tx, c)] } } }, none)
+    | _, _ => (st, bad)
+  | ["il", tid, pk, vals] =>
+    match parseNat tid, parseKey pk, parseVals vals with
+    | some tid, some pk, some vals => ({ st with pend := { st.pend with live := st.pend.live ++ [((tid, pk), vals)] } }, none)
+    | _, _, _ => (st, bad)
+  | ["qchain"] =>
+    let r := decideB (C03.Holds st.cfg st.pend.db.versions)
+    ({ st with pend := {} }, some r)
+  | ["qseg", oc] =>
+    let outcome := if oc == "rollback" then Outcome.rollback else Outcome.commit
+    let seg : Seg := { before := st.segBefore, evs := st.segEvs, outcome := outcome, after := st.pend }
+    let c01 := s!"{decideB (seg.outcome = .commit → C01.newestIsLive seg)}{decideB (seg.outcome = .commit → C01.removedIsDelete seg)}{decideB (seg.outcome = .commit → C01.onlyRealChanges st.cfg seg)}{decideB (seg.outcome = .commit → C01.changedHasRow seg)}{decideB (seg.outcome = .commit → C01.deleteVals st.cfg seg)}{decideB (seg.outcome = .commit → C01.pastKept seg)}"
+    let out := s!"{c01} {decideB (C02.Holds st.cfg seg)} {decideB (C03.Holds st.cfg seg.after.db.versions)} {decideB (C06.DbHolds seg)} {decideB (C11.Holds st.cfg seg)} {decideB (C17.Holds st.cfg seg)}"
+    -- the same predicates on the MODEL's own segment (validates the theorem statements)
+    let mseg : Seg := { before := st.mBefore, evs := st.segEvs, outcome := outcome, after := modelObs st.st }
+    let m01 := s!"{decideB (mseg.outcome = .commit → C01.newestIsLive mseg)}{decideB (mseg.outcome = .commit → C01.removedIsDelete mseg)}{decideB (mseg.outcome = .commit → C01.onlyRealChanges st.cfg mseg)}{decideB (mseg.outcome = .commit → C01.changedHasRow mseg)}{decideB (mseg.outcome = .commit → C01.deleteVals st.cfg mseg)}{decideB (mseg.outcome = .commit → C01.pastKept mseg)}"
+    let mout := s!"{m01} {decideB (C02.Holds st.cfg mseg)} {decideB (C03.Holds st.cfg mseg.after.db.versions)} {decideB (C06.DbHolds mseg)} {decideB (C11.Holds st.cfg mseg)} {decideB (C17.Holds st.cfg mseg)}"
+    ({ st with segBefore := st.pend, segEvs := [], pend := {}, mBefore := modelObs st.st },
+      some s!"{out} | {mout} | {showBool st.wf} {st.wfFirst} {decideB (CfgOK st.cfg)}")
+  | ["qdump", _] => (st, some (showModelDump st.st))
+  | ["s12in", name, schema, hasModel, single, excl, incl, f1, f2, validity, tx, en, op, mt] =>
+    match parseName name, parseOName schema, parseBool hasModel, parseBool single, parseNames excl, parseNames incl,
+          parseName f1, parseName f2, parseBool validity, parseName tx, parseName en, parseName op, parseBool mt with
+    | some name, some schema, some hasModel, some single, some excl, some incl, some f1, some f2, some validity,
+      some tx, some en, some op, some mt =>
+      let i : Schema.TblIn := { name := name, schema := schema, cols := [], hasModel := hasModel, single := single,
+                                exclude := excl, includ := incl, fmt := (f1, f2), validity := validity,
+                                txCol := tx, endCol := en, opCol := op, modTracker := mt }
+      ({ st with schIn := some i, schOut := none }, none)
+    | _, _, _, _, _, _, _, _, _, _, _, _, _ => (st, bad)
+  | ["s12c", name, typ, pk, nullable, unique, autoinc, onupdate, fk, index, key] =>
+    match st.schIn, parseName name, parseNat typ, parseBool pk, parseBool nullable, parseBool unique, parseBool autoinc,
+          parseBool onupdate, parseBool fk, parseBool index, parseOName key with
+    | some i, some name, some typ, some pk, some nullable, some unique, some autoinc, some onupdate, some fk, some index, some key =>
+      let c : Schema.PCol := { name := name, typ := typ, pk := pk, nullable := nullable, unique := unique,
+                               autoinc := autoinc, onupdate := onupdate, fk := fk, index := index, key := key }
+      ({ st with schIn := some { i with cols := i.cols ++ [c] } }, none)
+    | _, _, _, _, _, _, _, _, _, _, _ => (st, bad)
+  | ["s12out", name, schema] =>
+    match parseName name, parseOName schema with
+    | some name, some schema => ({ st with schOut := some { name := name, schema := schema, cols := [] } }, none)
+    | _, _ => (st, bad)
+  | ["s12o", name, typ, pk, nullable, unique, autoinc, onupdate, fk, index] =>
+    match st.schOut, parseName name, parseNat typ, parseBool pk, parseBool nullable, parseBool unique, parseBool autoinc,
+          parseBool onupdate, parseBool fk, parseBool index with
+    | some o, some name, some typ, some pk, some nullable, some unique, some autoinc, some onupdate, some fk, some index =>
+      let c : Schema.VCol := { name := name, typ := typ, pk := pk, nullable := nullable, unique := unique,
+                               autoinc := autoinc, onupdate := onupdate, fk := fk, index := index }
+      ({ st with schOut := some { o with cols := o.cols ++ [c] } }, none)
+    | _, _, _, _, _, _, _, _, _, _ => (st, bad)
+  | ["q12"] =>
+    match st.schIn, st.schOut with
+    | some i, some o =>
+      let m := Schema.deriveTable i
+      (st, some s!"{decideB (Schema.SchemaOK i o)} {decideB (Schema.InOK i)} | {showName m.name} | {";".intercalate (m.cols.map showVCol)}")
     | _, _ => (st, bad)
   | ["q08", k, vs, idx, nxt, prv] =>
     match parseKey k, parseNats vs, parseNats idx, parseONats nxt, parseONats prv with
